@@ -690,13 +690,16 @@ struct TemplateCore {
                     finder.Next();
                     const SizeT end_offset = finder.GetOffset();
 
+                    // '<loops>' and the like are text, not this tag.
+                    const bool is_loop = ((offset < end_offset) && !isNameChar(content[offset]));
+
                     // The head of the tag ends at the first '>', which has to come before the next tag starts.
                     while ((offset < end_offset) && (content[offset] != TagPatterns::MultiLineLastChar) &&
                            (content[offset] != TagPatterns::MultiLineFirstChar)) {
                         ++offset;
                     }
 
-                    if ((offset < end_offset) && (content[offset] == TagPatterns::MultiLineLastChar)) {
+                    if (is_loop && (offset < end_offset) && (content[offset] == TagPatterns::MultiLineLastChar)) {
                         LoopTag *tag = (storage->Insert(TagBit{})).MakeLoopTag();
                         tag->Offset  = loop_offset;
                         tag->Parent  = loop_tag;
@@ -740,6 +743,12 @@ struct TemplateCore {
                     const SizeT if_offset = (offset - TagPatterns::IfPrefixLength);
                     SizeT       case_offset{0};
                     SizeT       case_end_offset{0};
+
+                    if ((offset < length) && isNameChar(content[offset])) {
+                        // '<iframe' and the like are text, not this tag.
+                        finder.Next();
+                        break;
+                    }
 
                     parseIfCase(content, offset, length, case_offset, case_end_offset);
 
@@ -851,6 +860,11 @@ struct TemplateCore {
             storage->Drop(SizeT{1});
             parent_storage.Drop(SizeT{1});
         }
+    }
+
+    // A letter or a digit right after '<if' or '<loop' makes it the start of some other word.
+    inline static bool isNameChar(const Char_T ch) noexcept {
+        return (((ch >= 'a') && (ch <= 'z')) || ((ch >= 'A') && (ch <= 'Z')) || ((ch >= '0') && (ch <= '9')));
     }
 
     inline static void checkLoopVariable(const Char_T *content, VariableTag &tag, const LoopTag *loop_tag) noexcept {
